@@ -60,4 +60,15 @@ PROPS['C13'] = {
                    '(effective settings observed by wrapping PLSSParser/TractParser) and an independent oracle on the real code.',
 }
 
+PROPS['C19'] = {
+    'group': 'export',
+    'level': 'proof',
+    'explanation': 'Theorems about the model of to_list/to_dict/get_headers/scrub_row/tracts_to_csv/TractWriter for ALL tract lists, attribute lists and '
+                   'value shapes: one record/row per tract in order, values equal the attributes, unknown names give the n/a placeholder, every cell is the '
+                   'scalar or the joined list/dict contents (total: no shape raises), header row iff new file or write mode, every documented attribute has a '
+                   'header in the regenerated table. The csv module itself is outside the model (rows = cells handed to csv.writer); tied to the code by '
+                   'differential execution against files re-read with csv.reader + an independent oracle on the real files.',
+    'trusted_extra': ["Python's csv module (writerow/reader round trip) is assumed, exercised by the correspondence on text with commas, quotes and newlines"],
+}
+
 NOT_CLAIMED = {}
